@@ -77,26 +77,48 @@ MUTANTS += [
 
 MUTANTS += [
     # ---- C16
-    dict(id="c16-label-without-leaf-index", property="C16", edits=[(S, '_treepath_storage.value = f"(Leaf {index} in structure {structure}) "', '_treepath_storage.value = f"(Leaf in structure {structure}) "')]),
-    dict(id="c16-label-not-cleared-between-leaves", property="C16", edits=[(P, """                if not is_check_leaftype(leaf):
-                    return False
-                if cls.structure is not None:
-                    clear_treepath_memo()""", """                if not is_check_leaftype(leaf):
-                    return False""")]),
+    dict(id="c16-label-without-leaf-index", property="C16", edits=[(S, 'label = f"(Leaf {index} in structure {structure}) "', 'label = f"(Leaf in structure {structure}) "')]),
+    dict(id="c16-label-not-cleared-between-leaves", property="C16", edits=[(P, """                finally:
+                    # Exactly what we set, so that an enclosing structured PyTree
+                    # gets its own leaf position back.
+                    clear_treepath_memo()""", """                finally:
+                    pass""")]),
     dict(id="c16-variadic-name-not-prefixed", property="C16", edits=[(A, """                if variadic_dim.treepath:
                     name = get_treepath_memo() + variadic_dim.name""", """                if variadic_dim.treepath and False:
                     name = get_treepath_memo() + variadic_dim.name""")]),
-    dict(id="c16-inner-clears-label", property="C16", edits=[(P, """        finally:
-            # Only clear what we set: an unstructured `PyTree[...]` nested inside a
-            # structured one must not wipe the outer PyTree's leaf position.
-            if cls.structure is not None:
-                clear_treepath_memo()""", """        finally:
-            clear_treepath_memo()""")]),
-    dict(id="c16-label-ignores-structure-name", property="C16", edits=[(S, '_treepath_storage.value = f"(Leaf {index} in structure {structure}) "', '_treepath_storage.value = f"(Leaf {index}) "')]),
-    dict(id="c16-toplevel-question-silent", property="C16", edits=[(S, """    if not hasattr(_treepath_storage, "value") or _treepath_storage.value is None:
-        raise AnnotationError(""", """    if not hasattr(_treepath_storage, "value") or _treepath_storage.value is None:
+    dict(id="c16-inner-clears-label", property="C16", edits=[(P, """            if cls.structure is None:
+                # An unstructured `PyTree[...]` nested inside a structured one leaves
+                # the outer PyTree's leaf position alone.
+                if not is_check_leaftype(leaf):
+                    return False""", """            if cls.structure is None:
+                try:
+                    if not is_check_leaftype(leaf):
+                        return False
+                finally:
+                    clear_treepath_memo()""")]),
+    dict(id="c16-label-ignores-structure-name", property="C16", edits=[(S, 'label = f"(Leaf {index} in structure {structure}) "', 'label = f"(Leaf {index}) "')]),
+    dict(id="c16-toplevel-question-silent", property="C16", edits=[(S, """    if not stack:
+        raise AnnotationError(
+            "Cannot use `?` annotations""", """    if not stack:
         return ""
-        raise AnnotationError(""")]),
+        raise AnnotationError(
+            "Cannot use `?` annotations""")]),
+    # F11 re-introduced: a structured PyTree inside another one's leaf type refuses to nest (D1) ...
+    dict(id="c16-f11-structured-sibling-raises", property="C16", edits=[(S, """        stack.append(label)
+""", """        raise AnnotationError("ambiguous which PyTree the `?` annotation refers to")
+""")]),
+    # ... and a leafless / finished inner structured PyTree wipes the enclosing leaf position (D2)
+    dict(id="c16-f11-inner-structured-pops-outer", property="C16", edits=[(P, """                    clear_treepath_memo()
+        return True
+""", """                    clear_treepath_memo()
+        if cls.structure is not None:
+            clear_treepath_memo()
+        return True
+""")]),
+    dict(id="c16-ambiguity-not-reported", property="C16", edits=[(S, "    if len(stack) > 1:\n        raise AnnotationError(", "    if len(stack) > 99:\n        raise AnnotationError(")]),
+    dict(id="c16-ambiguous-uses-outer-label", property="C16", edits=[(S, "    return stack[0]\n", "    return stack[-1]\n"), (S, "    if len(stack) > 1:\n        raise AnnotationError(", "    if len(stack) > 99:\n        raise AnnotationError(")]),
+    # F12 re-introduced: trying a node as a leaf keeps the structure names it bound
+    dict(id="c08-f12-leaf-trial-binds-structure-name", property="C08", checks=["C08", "C16"], edits=[(P, "                if pytree_memo != pytree_memo_bak:\n", "                if False:\n")]),
 ]
 
 MUTANTS += [
